@@ -178,7 +178,12 @@ func (s *Session) Project(names []string) (snap Snapshot) {
 		return strings.Join(snap.Post[a].P, "/") < strings.Join(snap.Post[b].P, "/")
 	})
 
-	if wd, err := s.base().Getwd(); err == nil {
+	cw := s.base()
+	if s.CwdFS != nil {
+		cw = s.CwdFS
+	}
+
+	if wd, err := cw.Getwd(); err == nil {
 		snap.Cwd = s.abstractPath(wd)
 	} else {
 		snap.Cwd = Path{Parts: []string{"GETWD-" + ErrName(err)}}
